@@ -11,6 +11,19 @@ ext_C06.install()  # library models of this property: Python sets of ints, any /
 SUB = "swcgeom/core/swc_utils/subtree.py"
 REMOVAL = -2
 
+# Second registrations ("fixed small sizes").  Every carrier that walks the node table is verified a second time, against the SAME
+# clauses, on tables of exactly FIXED_SIZES rows whose ids / parents / types / attributes / marks are all symbolic (so every legal
+# numbering of that many nodes is covered, parent-first or not).  The row count being a concrete number, a loop over the rows for
+# which the sidecar has no invariant -- a rewritten carrier -- simply unrolls, and the postconditions are DECIDED at that size
+# (a counter-model is a concrete table) instead of ending in `unsupported: loop without invariant`.
+FIXED_SIZES = (5,)
+FIXED_NOTE = ("second registration on tables of a fixed number of rows: a loop over the rows without a sidecar invariant unrolls, "
+              "the postconditions are decided at that size")
+
+
+def fixed_name(m):
+    return f"{m} rows in any legal numbering"
+
 
 def local_collection_name(key, kind, default="removals"):
     """name of the carrier's local that collects the removals, read off its current AST (so that the local may be renamed):
@@ -38,14 +51,48 @@ def local_collection_name(key, kind, default="removals"):
     return default
 
 
+def marked_array_name(key, default="new_ids"):
+    """name of to_subtree's local array of removal marks, read off its current AST (so that the local may be renamed): the first
+    component of the tuple handed to propagate_removal"""
+    import ast
+
+    from pyvc import extract
+
+    try:
+        node, _, _ = extract.find(key)
+    except (KeyError, OSError):
+        return default
+    for x in ast.walk(node):
+        if isinstance(x, ast.Call) and getattr(x.func, "id", getattr(x.func, "attr", None)) == "propagate_removal" and x.args:
+            a = x.args[0]
+            if isinstance(a, ast.Tuple) and a.elts and isinstance(a.elts[0], ast.Name):
+                return a.elts[0].id
+    return default
+
+
 PPOS = z3.Function("parent_pos", z3.IntSort(), z3.IntSort())  # ghost: position of a kept entry's parent entry
+
+
+def as_sarr(a):
+    """a 1-D integer array of CONCRETE length (e.g. `np.array([n, c1, c2])` built from a Python list on one path) read as a symbolic array
+    of that length, so that the clauses below apply to it unchanged"""
+    from pyvc.values import NArr
+
+    if isinstance(a, NArr) and a.ndim == 1 and a.kind in ("int", "bool"):
+        arr = z3.K(z3.IntSort(), z3.IntVal(0))
+        for j, x in enumerate(a.items):
+            arr = z3.Store(arr, j, to_z3(x, "int"))
+        out = SArr(arr, len(a.items), "int", name="column")
+        out.uid = a.uid
+        return out
+    return a
 
 
 def sub_pre(which):
     """preconditions of to_sub_topology: the kept entries carry pairwise distinct ids, and the parent id of a kept entry
     is -1 or the id of a KEPT entry (ghost PPOS) -- otherwise the dict lookup raises KeyError"""
     def f(E, v, o):
-        sid, spid = v["sub"]
+        sid, spid = (as_sarr(a) for a in v["sub"])
         n = sid.nz()
         i, j = z3.Int(fresh_name("i")), z3.Int(fresh_name("j"))
         kept = lambda t: z3.And(t >= 0, t < n, z3.Select(sid.arr, t) != REMOVAL)
@@ -53,6 +100,12 @@ def sub_pre(which):
             return spid.nz() == n
         if which == "kept-ids-pairwise-distinct":
             return z3.ForAll([i, j], z3.Implies(z3.And(kept(i), kept(j), i != j), z3.Select(sid.arr, i) != z3.Select(sid.arr, j)))
+        if isinstance(sid.n, int) and not isinstance(sid.n, bool):
+            # a table of exactly sid.n entries: "the parent id of a kept entry is the id of SOME kept entry" as a finite disjunction
+            # (no ghost position function is needed, so a caller need not define one)
+            return z3.And(*[z3.Implies(z3.And(kept(z3.IntVal(a)), z3.Select(spid.arr, a) != -1),
+                                       z3.Or(*[z3.And(kept(z3.IntVal(b)), z3.Select(sid.arr, b) == z3.Select(spid.arr, a)) for b in range(sid.n)]))
+                            for a in range(sid.n)])
         return z3.ForAll([i], z3.Implies(z3.And(kept(i), z3.Select(spid.arr, i) != -1), z3.And(kept(PPOS(i)), z3.Select(sid.arr, PPOS(i)) == z3.Select(spid.arr, i))))
 
     return (which, f)
@@ -70,9 +123,12 @@ def sub_result(S, fr):
 
 
 def register(R: Registry):
-    def setup(S):
-        n = S.int("n")
-        S.assume(n.z >= 0)
+    def setup(S, size=None):
+        if size is None:
+            n = S.int("n")
+            S.assume(n.z >= 0)
+        else:
+            n = int(size)  # a table of exactly `size` entries
         sid, spid = S.arr("int", n=n, name="sub_id"), S.arr("int", n=n, name="sub_pid")
         sid.frozen = spid.frozen = True
         return dict(sub=(sid, spid))
@@ -80,7 +136,7 @@ def register(R: Registry):
     def post(which):
         def f(E, v, o):
             (new_id, new_pid), mapping = v["result"]
-            sid, spid = o["sub"]
+            sid, spid = (as_sarr(a) for a in o["sub"])
             kappa, rho = mapping.kappa, mapping.rho
             n, m = sid.nz(), mapping.nz()
             k, i = z3.Ints(fresh_name("k") + " " + fresh_name("i"))
@@ -104,15 +160,13 @@ def register(R: Registry):
 
         return f
 
-    R.add(
-        f"{SUB}:to_sub_topology",
-        prop="C06",
-        setup=setup,
-        requires=[sub_pre("same-length"), sub_pre("kept-ids-pairwise-distinct"), sub_pre("kept-parents-are-kept-entries")],
-        returns=sub_result,
-        ensures=[("mapping-is-the-kept-ids-in-order", post("mapping")), ("new-ids-are-positions", post("ids")),
-                 ("parents-remapped-roots-kept", post("pids")), ("outputs-are-fresh", post("fresh"))],
-    )
+    ST = dict(requires=[sub_pre("same-length"), sub_pre("kept-ids-pairwise-distinct"), sub_pre("kept-parents-are-kept-entries")],
+              returns=sub_result,
+              ensures=[("mapping-is-the-kept-ids-in-order", post("mapping")), ("new-ids-are-positions", post("ids")),
+                       ("parents-remapped-roots-kept", post("pids")), ("outputs-are-fresh", post("fresh"))])
+    R.add(f"{SUB}:to_sub_topology", prop="C06", setup=setup, **ST)
+    # the same contract on tables of a fixed small number of entries (ids, parents and removal marks symbolic)
+    R.add(f"{SUB}:to_sub_topology", prop="C06", variants={fixed_name(m): (lambda S, m=m: setup(S, size=m)) for m in FIXED_SIZES}, **ST, notes=FIXED_NOTE)
 
 
 # =========================================================================== propagate_removal (traverse client rule)
@@ -124,14 +178,14 @@ def register_propagate(R):
     # ghost Rm: node is marked, or lies below a marked node -- a fresh symbol per call, defined by define_rm and kept in
     # E.spec_extra["Rm"] (so the clauses of a caller can speak about the closure of ITS call)
 
-    def setup(S):
-        n = S.int("n")
-        S.assume(n.z >= 1)
+    def setup(S, size=None):
+        if size is None:
+            n = S.int("n")
+            S.assume(n.z >= 1)
+        else:
+            n = int(size)  # a table of exactly `size` rows
         new_ids, pids = S.arr("int", n=n, name="new_ids"), S.arr("int", n=n, name="pids")
         pids.frozen = True  # only the id array may be written (the function documents that it marks in place)
-        i = z3.Int("i_pr")
-        P, A = pids.arr, new_ids.arr
-        R_ = lambda t: z3.And(t >= 0, t < n.z)
         return dict(topology=(new_ids, pids))
 
     def define_rm(E, old):
@@ -188,12 +242,14 @@ def register_propagate(R):
         ids0, pids0 = fr.vars["topology"]
         return (ids0, SArr.fresh("int", pids0.nz(), name="pids_copy"))
 
-    R.add(f"{SUB}:propagate_removal", prop="C06", setup=setup,
-          requires=[wf_pre("same-length"), wf_pre("node-0-is-the-root-and-parents-exist"), wf_pre("every-node-reaches-the-root")],
-          ghost_entry=define_rm, returns=pr_result, modifies=["topology[0]"],
-          ensures=[(nm, post(nm)) for nm in ("marked-exactly-the-removal-closure", "survivors-keep-their-id", "parents-returned-as-a-fresh-equal-copy", "marks-in-place")],
-          options=dict(traverse_rule=Rule(J, Qe=Qe, modifies=["new_ids"], enter_kind="bool")),
+    PR = dict(requires=[wf_pre("same-length"), wf_pre("node-0-is-the-root-and-parents-exist"), wf_pre("every-node-reaches-the-root")],
+              ghost_entry=define_rm, returns=pr_result, modifies=["topology[0]"],
+              ensures=[(nm, post(nm)) for nm in ("marked-exactly-the-removal-closure", "survivors-keep-their-id", "parents-returned-as-a-fresh-equal-copy", "marks-in-place")],
+              options=dict(traverse_rule=Rule(J, Qe=Qe, modifies=["new_ids"], enter_kind="bool")))
+    R.add(f"{SUB}:propagate_removal", prop="C06", setup=setup, **PR,
           notes="the id array is marked IN PLACE (documented); callers must hand in a private copy — that is an obligation of to_subtree")
+    # the same contract on tables of a fixed small number of rows (marks and parents symbolic: ANY legal numbering)
+    R.add(f"{SUB}:propagate_removal", prop="C06", variants={fixed_name(m): (lambda S, m=m: setup(S, size=m)) for m in FIXED_SIZES}, **PR, notes=FIXED_NOTE)
 
 
 _reg6 = register
@@ -225,9 +281,9 @@ def register_subtree(R):
     I = z3.IntSort()
     sel = z3.Select
 
-    def wf_tree(S, name="t"):
+    def wf_tree(S, name="t", size=None):
         """a well-formed input tree (ids = positions, node 0 the root, parents exist, depth witness) with an extra column; frozen"""
-        t = sym_tree(S, name, frozen=True, extra_cols=(EXTRA6,))
+        t = raw_tree(S, name, size=size)
         n = nof(t)
         i = z3.Int(fresh_name("i"))
         idc, pid = col(t, "id").arr, col(t, "pid").arr
@@ -242,6 +298,9 @@ def register_subtree(R):
         return dict(t.fields["ndata"].items)
 
     def list_view(L):
+        """(z3 array, length) of a sequence of ints: a Python list (symbolic or concrete) or a 1-D numpy array"""
+        if isinstance(L, SArr):
+            return L.arr, L.nz()
         if L.items is None:
             return L.cols[0], zint(L.n)
         a = z3.K(I, z3.IntVal(0))
@@ -250,18 +309,21 @@ def register_subtree(R):
         return a, z3.IntVal(len(L.items))
 
     # ------------------------------------------------------------------ to_subtree_impl
-    def impl_setup(kind):
+    def impl_setup(kind, size=None):
         def f(S):
-            t = wf_tree(S)
+            t = wf_tree(S, size=size)
             n = nof(t)
-            sid, spid = S.arr("int", n=S.int("sn"), name="sub_id"), S.arr("int", name="sub_pid")
+            if size is None:
+                sid, spid = S.arr("int", n=S.int("sn"), name="sub_id"), S.arr("int", name="sub_pid")
+            else:  # the marked table has one entry per row of the tree (what to_subtree hands over), each kept or marked
+                sid, spid = S.arr("int", n=int(size), name="sub_id"), S.arr("int", n=int(size), name="sub_pid")
             out = None if kind == "none" else (PList([7, 8]) if kind == "list" else S.pdict("int", name="out_mapping"))
             return dict(swc_like=t, sub=(sid, spid), out_mapping=out)
 
         return f
 
     def impl_pre_inrange(E, v, o):
-        sid, _ = v["sub"]
+        sid = as_sarr(v["sub"][0])
         i = z3.Int(fresh_name("i"))
         return z3.ForAll([i], z3.Implies(z3.And(i >= 0, i < sid.nz(), sid.get(i).z != REMOVAL), z3.And(sid.get(i).z >= 0, sid.get(i).z < nof(v["swc_like"]))))
 
@@ -288,12 +350,20 @@ def register_subtree(R):
         om, mapping = v["out_mapping"], v["mapping"]
         if not isinstance(om, PDict) or om.items is not None:
             return False
-        kk = to_z3(v["_k0"], "int")
+        kk = to_z3(v["_kfill"], "int")
         j = z3.Int(fresh_name("j"))
         return z3.ForAll([j], z3.And(sel(om.dom, j) == z3.And(j >= 0, j < kk), z3.Implies(z3.And(j >= 0, j < kk), sel(om.val, j) == mapping.get(j).z)))
 
     # the loop variable `new_id` shadows the array of that name (already stored in ndata): at the loop head it is an int
-    DICT_LOOP = {0: dict(invariant=[("keys-so-far-map-to-the-old-ids", dict_fill_inv)], rebind={"new_id": lambda eng, cur: fresh("int", "new_id")})}
+    def is_dict_fill_loop(node):
+        """`for <new>, <old> in enumerate(mapping)` -- the loop that fills a caller's dict (wherever it stands among the function's loops)"""
+        import ast
+
+        it = getattr(node, "iter", None)
+        return (isinstance(it, ast.Call) and isinstance(it.func, ast.Name) and it.func.id == "enumerate" and len(it.args) == 1
+                and isinstance(it.args[0], ast.Name) and it.args[0].id == "mapping")
+
+    DICT_LOOP = {"dict-fill": dict(applies=is_dict_fill_loop, index="_kfill", invariant=[("keys-so-far-map-to-the-old-ids", dict_fill_inv)], rebind={"new_id": lambda eng, cur: fresh("int", "new_id")})}
 
     def impl_post(which):
         def f(E, v, o):
@@ -338,16 +408,35 @@ def register_subtree(R):
         nd = PDict({c: SArr.fresh(a.kind, m.z, name="sub_" + c) for c, a in all_cols(t).items()})
         return (m, nd, t.fields["source"], t.fields["names"])
 
+    TI = dict(requires=[sub_pre("same-length"), sub_pre("kept-ids-pairwise-distinct"), sub_pre("kept-parents-are-kept-entries"), ("kept-ids-are-nodes-of-the-tree", impl_pre_inrange)],
+              ensures=[(nm, impl_post(nm)) for nm in IMPL_POSTS],
+              loops=DICT_LOOP)
     R.add(f"{IMPL}:to_subtree_impl", prop="C06",
           variants={"no-mapping-requested": impl_setup("none"), "mapping-into-a-list": impl_setup("list"), "mapping-into-a-dict": impl_setup("dict")},
-          requires=[sub_pre("same-length"), sub_pre("kept-ids-pairwise-distinct"), sub_pre("kept-parents-are-kept-entries"), ("kept-ids-are-nodes-of-the-tree", impl_pre_inrange)],
-          ensures=[(nm, impl_post(nm)) for nm in IMPL_POSTS],
-          loops=DICT_LOOP,
-          notes="out_mapping: None, a list or a dict (any previous content is discarded)")
+          **TI, notes="out_mapping: None, a list or a dict (any previous content is discarded)")
+    # the same contract on trees of a fixed small number of rows (the marked table has one entry per row, as to_subtree hands it over)
+    R.add(f"{IMPL}:to_subtree_impl", prop="C06",
+          variants={f"{fixed_name(m)}, {nm}": impl_setup(kind, size=m) for m in FIXED_SIZES for kind, nm in (("none", "no-mapping-requested"), ("dict", "mapping-into-a-dict"))},
+          **TI, notes=FIXED_NOTE)
 
     # ------------------------------------------------------------------ to_subtree
-    def raw_tree(S, name="t"):
-        return sym_tree(S, name, frozen=True, extra_cols=(EXTRA6,))
+    def raw_tree(S, name="t", size=None):
+        """the input tree: frozen symbolic columns (with one extra attribute column) of one symbolic length, or -- `size` given --
+        of exactly `size` rows (a CONCRETE length: loops over the rows that have no sidecar invariant then simply unroll)"""
+        if size is None:
+            return sym_tree(S, name, frozen=True, extra_cols=(EXTRA6,))
+        from swcgeom.core.swc_utils import get_names, get_types
+        from swcgeom.core.tree import Tree
+
+        cols = {}
+        for c, k in list(COLS.items()) + [(EXTRA6, "real")]:
+            cols[c] = S.arr(k, n=int(size), name=f"{name}_{c}")
+            cols[c].frozen = True
+        nd = PDict(cols)
+        nd.frozen = True
+        t = S.obj(Tree, ndata=nd, names=get_names(), types=get_types(), source="", comments=PList([]))
+        t.frozen = True
+        return t
 
     def wf_clause(which, tname="swc_like"):
         """well-formed input tree (a PRECONDITION: proved at every modular call site); tname: parameter name or getter(vars)"""
@@ -368,9 +457,9 @@ def register_subtree(R):
 
     WF = ["ids-are-positions", "node-0-is-the-root-and-parents-exist", "every-node-reaches-the-root"]
 
-    def ts_setup(kind, out_kind="none"):
+    def ts_setup(kind, out_kind="none", size=None):
         def f(S):
-            t = raw_tree(S)
+            t = raw_tree(S, size=size)
             if kind == "list":
                 rem = S.plist("int", name="removals")
             else:
@@ -400,14 +489,25 @@ def register_subtree(R):
         A, ln = list_view(rem)
         return z3.ForAll([j], z3.Implies(z3.And(j >= 0, j < ln), z3.And(sel(A, j) >= 0, sel(A, j) < n)))
 
+    MARKS = marked_array_name(f"{TU}:to_subtree")  # to_subtree's local array of removal marks (whatever it is called)
+
+    def is_marking_loop(node):
+        """`for <i> in removals` -- the loop that marks the requested nodes (wherever it stands among the function's loops)"""
+        import ast
+
+        it = getattr(node, "iter", None)
+        return isinstance(it, ast.Name) and it.id == "removals"
+
     def ts_inv(which):
         def f(E, v, o):
             t = v["swc_like"]
             n = nof(t)
             rem = v["removals"]
-            k = to_z3(v["_k0"], "int")
+            k = to_z3(v["_kmark"], "int")
             x, j = z3.Int(fresh_name("x")), z3.Int(fresh_name("j"))
-            a = v["new_ids"]
+            a = v.get(MARKS)
+            if not isinstance(a, SArr):
+                return False
             if isinstance(rem, SymSet):  # the loop walks a ghost enumeration of the members (each once): pos = position in it
                 ks, m, pos, mem0 = E.ghost[("setelems-last", rem.uid)]
                 listed = z3.And(sel(mem0, x), pos(x) < k)
@@ -415,7 +515,10 @@ def register_subtree(R):
                 A, ln = list_view(rem)
                 listed = z3.Exists([j], z3.And(j >= 0, j < k, sel(A, j) == x))
             if which == "marks-so-far":
-                return z3.And(a.nz() == n, a.uid not in E.entry_uids, z3.ForAll([x], z3.Implies(z3.And(x >= 0, x < n), a.get(x).z == z3.If(listed, z3.IntVal(REMOVAL), x))))
+                # (that the mark array is a private copy is NOT stated here: allocation identity is concrete engine state, and as an
+                # invariant conjunct it made the path vacuous at the loop head when the copy was dropped -- before the store into the
+                # input's id column could fail its frame obligation.  The store / the in-place callee now fail `safety/frame-write`.)
+                return z3.And(a.nz() == n, z3.ForAll([x], z3.Implies(z3.And(x >= 0, x < n), a.get(x).z == z3.If(listed, z3.IntVal(REMOVAL), x))))
 
         return f
 
@@ -493,20 +596,25 @@ def register_subtree(R):
 
     TS_POSTS = ["removal-closure-is-removed-or-below-a-removed-node", "survivors-are-exactly-the-nodes-outside-the-closure-in-order", "survivors-keep-every-attribute",
                 "ids-are-positions-and-parent-relation-kept", "result-shares-no-storage-with-the-input", "mapping-reported"]
+    TS = dict(requires=[wf_clause(w) for w in WF] + [("removals-are-node-ids", ts_pre_removals)],
+              returns=ts_result, modifies=["out_mapping"], inlined_loops={f"{IMPL}:to_subtree_impl": DICT_LOOP},
+              ensures=[(nm, ts_post(nm)) for nm in TS_POSTS],
+              loops={"marking": dict(applies=is_marking_loop, index="_kmark", invariant=[("marks-so-far", ts_inv("marks-so-far"))])})
     R.add(f"{TU}:to_subtree", prop="C06",
           variants={"removals in a list": ts_setup("list"), "removals in a set": ts_setup("set"),
                     "removals in a list, mapping into a list": ts_setup("list", "list"), "removals in a list, mapping into a dict": ts_setup("list", "dict")},
-          requires=[wf_clause(w) for w in WF] + [("removals-are-node-ids", ts_pre_removals)],
-          returns=ts_result, modifies=["out_mapping"], inlined_loops={f"{IMPL}:to_subtree_impl": DICT_LOOP},
-          ensures=[(nm, ts_post(nm)) for nm in TS_POSTS],
-          loops={0: dict(invariant=[("marks-so-far", ts_inv("marks-so-far"))])},
+          **TS,
           notes="the input tree is frozen (any store into it is a failed frame obligation); removals may repeat and come in any order; "
                 "used modularly by cut_tree / CutByType / CutShortTipBranch (ghost outputs: mapping, its inverse, the removal closure)")
+    # the same contract on trees of a fixed small number of rows (removals still a list / set of ANY length)
+    R.add(f"{TU}:to_subtree", prop="C06",
+          variants={f"{fixed_name(m)}, removals in a {kind}": ts_setup(kind, size=m) for m in FIXED_SIZES for kind in ("list", "set")},
+          **TS, notes=FIXED_NOTE)
 
     # ------------------------------------------------------------------ get_subtree_impl (traverse client rule)
-    def gs_setup(kind):
+    def gs_setup(kind, size=None):
         def f(S):
-            t = raw_tree(S)
+            t = raw_tree(S, size=size)
             r = S.int("start")
             G = Obj(GhostList, dict(at=SArr(z3.K(I, z3.IntVal(-1)), nof(t), "int", name="at")))  # ghost: at[x] = position of node x in `ids`
             out = None if kind == "none" else (PList([7, 8]) if kind == "list" else S.pdict("int", name="out_mapping"))
@@ -556,12 +664,34 @@ def register_subtree(R):
         nd.ghost6 = dict(mapping=SArr.fresh("int", m.z, name="mapping"), Sub=z3.Function(fresh_name("Sub"), I, z3.BoolSort()))
         return (m, nd, t.fields["source"], t.fields["names"])
 
-    def gs_ghost(E, ndata):
+    def descendants_of(E, t, start):
+        """ghost definition, for a carrier that does NOT go through the traversal (whose rule introduces this predicate itself): Sub =
+        the start node and every node whose parent is in Sub, nothing else -- the descendant set, which exists and is unique on a
+        well-formed table (the precondition)"""
+        key = ("Sub6", t.uid, z3.simplify(to_z3(start, "int")).sexpr())
+        if key not in E.ghost:
+            Sub = z3.Function(fresh_name("Sub"), I, z3.BoolSort())
+            P, n, root = col(t, "pid").arr, nof(t), to_z3(start, "int")
+            x = z3.Int(fresh_name("x"))
+            Rg = lambda q: z3.And(q >= 0, q < n)
+            E.assume(Sub(root))
+            E.assume(z3.ForAll([x], z3.Implies(Sub(x), Rg(x))))
+            E.assume(z3.ForAll([x], z3.Implies(z3.And(Rg(x), sel(P, x) >= 0, Sub(sel(P, x))), Sub(x))))
+            E.assume(z3.ForAll([x], z3.Implies(z3.And(Sub(x), x != root), z3.And(sel(P, x) >= 0, Sub(sel(P, x))))))
+            E.assume(z3.Implies(sel(P, root) >= 0, z3.Not(Sub(sel(P, root)))))
+            E.assumptions.add("ghost definition: Sub = the start node and its descendants (least set closed under `parent in Sub`; exists uniquely on a well-formed table), "
+                              "used where a carrier collects a subtree without the traversal")
+            E.ghost[key] = Sub
+        return E.ghost[key]
+
+    def gs_ghost(E, ndata, t=None, start=None):
         g = getattr(ndata, "ghost6", None)
         if g is not None:
             return g["mapping"], g["Sub"]
         c = topo_call(E)
         Sub = E.ghost.get("last-traverse-Sub")
+        if Sub is None and t is not None:
+            Sub = descendants_of(E, t, start)
         if c is None or Sub is None:
             return None
         return c["__result__"][1], Sub
@@ -609,31 +739,35 @@ def register_subtree(R):
 
     def gs_post(which):
         def f(E, v, o):
-            return gs_clause(E, which, v["result"], o["swc_like"], o["n"], gs_ghost(E, v["result"][1]), v["out_mapping"])
+            return gs_clause(E, which, v["result"], o["swc_like"], o["n"], gs_ghost(E, v["result"][1], o["swc_like"], o["n"]), v["out_mapping"])
 
         return f
 
     GS_POSTS = ["descendants-are-the-start-node-and-every-node-whose-parent-is-a-descendant", "exactly-the-start-node-and-its-descendants-each-once",
                 "start-node-is-the-new-root-without-parent", "parents-precede-children-and-the-parent-relation-is-kept",
                 "survivors-keep-every-attribute-in-fresh-storage", "mapping-reported"]
+    GS = dict(requires=[wf_clause(w) for w in WF] + [("start-node-in-range", gs_start_in_range)],
+              returns=gs_result, modifies=["out_mapping"], inlined_loops={f"{IMPL}:to_subtree_impl": DICT_LOOP},
+              ensures=[(nm, gs_post(nm)) for nm in GS_POSTS],
+              options=dict(traverse_rule=Rule(gs_J, modifies=[("ids", "int"), "G6"], enter_kind="oref", ghost_enter=gs_ghost_enter),
+                           asserts_after={"sub_ids": [("parent-entry-choice-function", gs_define_ppos)]}))
     R.add(f"{IMPL}:get_subtree_impl", prop="C06",
           variants={"no-mapping-requested": gs_setup("none"), "mapping-into-a-list": gs_setup("list"), "mapping-into-a-dict": gs_setup("dict")},
-          requires=[wf_clause(w) for w in WF] + [("start-node-in-range", gs_start_in_range)],
-          returns=gs_result, modifies=["out_mapping"], inlined_loops={f"{IMPL}:to_subtree_impl": DICT_LOOP},
-          ensures=[(nm, gs_post(nm)) for nm in GS_POSTS],
-          options=dict(traverse_rule=Rule(gs_J, modifies=[("ids", "int"), "G6"], enter_kind="oref", ghost_enter=gs_ghost_enter),
-                       asserts_after={"sub_ids": [("parent-entry-choice-function", gs_define_ppos)]}),
+          **GS,
           notes="mapping = the pre-order list of the subtree; the input is frozen; used modularly by get_subtree / Tree.Node.subtree "
                 "(ghost outputs: mapping, the descendant predicate)")
+    # the same contract on trees of a fixed small number of rows (any start node)
+    R.add(f"{IMPL}:get_subtree_impl", prop="C06",
+          variants={f"{fixed_name(m)}, no-mapping-requested": gs_setup("none", size=m) for m in FIXED_SIZES}, **GS, notes=FIXED_NOTE)
 
     # ------------------------------------------------------------------ get_subtree / Tree.Node.subtree: thin wrappers over get_subtree_impl
     from contracts.C09 import node_obj
 
     TREE = "swcgeom/core/tree.py"
 
-    def gw_setup(form, kind):
+    def gw_setup(form, kind, size=None):
         def f(S):
-            t = raw_tree(S)
+            t = raw_tree(S, size=size)
             out = None if kind == "none" else (S.plist("int", name="out_mapping") if kind == "list" else S.pdict("int", name="out_mapping"))
             if form == "function":
                 return dict(swc_like=t, n=S.int("start"), out_mapping=out)
@@ -679,11 +813,13 @@ def register_subtree(R):
     GW_POSTS = ["delegates-to-the-impl-with-this-tree-this-start-node-and-the-callers-mapping-object", "tree-built-from-exactly-the-impls-tuple"] + GS_POSTS + ["result-shares-no-storage-with-the-input"]
     for form, key, tn in (("function", f"{TU}:get_subtree", "swc_like"), ("method", f"{TREE}:Tree.Node.subtree", None)):
         getter = (lambda v: v["swc_like"]) if form == "function" else (lambda v: v["self"].fields["attach"])
+        GW = dict(requires=[wf_clause(w, getter) for w in WF] + [("start-node-in-range", gw_pre(form))],
+                  ensures=[(nm, gw_post(form, nm)) for nm in GW_POSTS])
         R.add(key, prop="C06",
               variants={"no-mapping-requested": gw_setup(form, "none"), "mapping-into-a-list": gw_setup(form, "list"), "mapping-into-a-dict": gw_setup(form, "dict")},
-              requires=[wf_clause(w, getter) for w in WF] + [("start-node-in-range", gw_pre(form))],
-              ensures=[(nm, gw_post(form, nm)) for nm in GW_POSTS],
-              notes="thin wrapper: get_subtree_impl through its proved contract, then the Tree constructor (interpreted from source)")
+              **GW, notes="thin wrapper: get_subtree_impl through its proved contract, then the Tree constructor (interpreted from source)")
+        # the same contract on trees of a fixed small number of rows
+        R.add(key, prop="C06", variants={f"{fixed_name(m)}, no-mapping-requested": gw_setup(form, "none", size=m) for m in FIXED_SIZES}, **GW, notes=FIXED_NOTE)
 
     from pyvc.engine import Unsupported
 
@@ -711,9 +847,9 @@ def register_cut_tree(R):
         E.prove(f"cut_tree/call:{who}/pre/callback-receives-a-handle-on-the-input-tree", ok, "precondition")
         return to_z3(node.fields["idx"], "int")
 
-    def setup(mode):
+    def setup(mode, size=None):
         def f(S):
-            t = K["raw_tree"](S)
+            t = K["raw_tree"](S, size=size)
             n = nof(t)
             G = Obj(GhostList, dict(at=SArr(z3.K(I, z3.IntVal(-1)), n, "int", name="at"),                       # position of a node in `removals`
                                     flag=SArr(z3.K(I, z3.BoolVal(False)), n, "bool", name="flag"),               # leave form: flag the callback returned at x
@@ -860,16 +996,21 @@ def register_cut_tree(R):
     CT_POSTS = ["removal-closure-is-removed-or-below-a-removed-node", "survivors-are-exactly-the-nodes-outside-the-closure-in-order", "survivors-keep-every-attribute",
                 "ids-are-positions-and-parent-relation-kept", "result-shares-no-storage-with-the-input"]
     LABEL = {"removal-closure-is-removed-or-below-a-removed-node": "removed-iff-designated-by-the-callback-or-below-a-removed-node"}
+    CT = dict(requires=[K["wf_clause"](w, "tree") for w in K["WF"]],
+              ghost_entry=define_designated,
+              ensures=[(LABEL.get(nm, nm), post(nm)) for nm in CT_POSTS] + [("leave-callback-handed-its-childrens-values-in-order", post("callback-handed-its-childrens-values-in-order"))],
+              options=dict(traverse_rule=Rule(J, Qe=Qe, Ql=Ql, modifies=[(REM, "int"), "G6"], enter_kind=lambda E: (fresh("oref", "pv"), fresh("bool", "pr")), leave_kind="oref",
+                                              ghost_enter=ghost_step, ghost_leave=ghost_step),
+                           hints={"post/removed-iff-designated-by-the-callback-or-below-a-removed-node": induction_hint}))
     R.add(f"{TU}:cut_tree", prop="C06",
           variants={"enter callback": setup("enter"), "leave callback": setup("leave"), "neither (plain copy)": setup("neither")},
-          requires=[K["wf_clause"](w, "tree") for w in K["WF"]],
-          ghost_entry=define_designated,
-          ensures=[(LABEL.get(nm, nm), post(nm)) for nm in CT_POSTS] + [("leave-callback-handed-its-childrens-values-in-order", post("callback-handed-its-childrens-values-in-order"))],
-          options=dict(traverse_rule=Rule(J, Qe=Qe, Ql=Ql, modifies=[(REM, "int"), "G6"], enter_kind=lambda E: (fresh("oref", "pv"), fresh("bool", "pr")), leave_kind="oref",
-                                          ghost_enter=ghost_step, ghost_leave=ghost_step),
-                       hints={"post/removed-iff-designated-by-the-callback-or-below-a-removed-node": induction_hint}),
+          **CT,
           notes="enter form: the user callback is an uninterpreted function of (node, incoming value); leave form: arbitrary results recorded in ghost "
                 "observation arrays; to_subtree is used through its proved contract; the input tree is frozen")
+    # the same contract on trees of a fixed small number of rows
+    R.add(f"{TU}:cut_tree", prop="C06",
+          variants={f"{fixed_name(m)}, {nm}": setup(mode, size=m) for m in FIXED_SIZES for mode, nm in (("enter", "enter callback"), ("leave", "leave callback"))},
+          **CT, notes=FIXED_NOTE)
 
     # ------------------------------------------------------------------ the nested closures on their own (their clauses are POSTCONDITIONS here)
     from contracts.C09 import node_obj
@@ -1044,10 +1185,10 @@ def register_cut_by_type(R):
     TT = "swcgeom/transforms/tree.py"
     REM = local_collection_name(f"{TT}:CutByType.__call__", "set")  # the local set of removals (whatever it is called)
 
-    def setup(S):
+    def setup(S, size=None):
         from swcgeom.transforms.tree import CutByType
 
-        t = K["raw_tree"](S)
+        t = K["raw_tree"](S, size=size)
         G = Obj(GhostList, dict(keep=SArr(z3.K(I, z3.BoolVal(False)), nof(t), "bool", name="keep")))  # ghost: what `leave` returned at x
         return dict(self=S.obj(CutByType, type=S.int("wanted_type")), x=t, __ghost__=dict(G6=G))
 
@@ -1107,7 +1248,8 @@ def register_cut_by_type(R):
         t = c["swc_like"]
         mapping, kappa, rho, Rm = K["sub_ghost"](E, c["__result__"])
         keep = G6(E).fields["keep"].arr
-        ctx = E.ghost["last-traverse-ctx"]
+        if E.ghost.get("last-traverse-ctx") is None:
+            return  # no traversal on this path (a rewritten carrier): `keep` was never filled in, the steps below have nothing to say
         P, n = col(t, "pid").arr, nof(t)
         x = z3.Int(fresh_name("x"))
         Rg = lambda q: z3.And(q >= 0, q < n)
@@ -1128,6 +1270,15 @@ def register_cut_by_type(R):
                        hints={"post/kept-iff-of-the-type-or-parent-of-a-kept-node": induction_hint}),
           notes="kept = the nodes of the type and all their ancestors (the unique fixpoint of `of the type, or parent of a kept node` on a finite tree); "
                 "`removals` is a Python set of ids; to_subtree through its proved contract")
+
+    # ---- the same contract on tables of a fixed small number of rows (ids, parents, types, attributes symbolic; ANY legal numbering)
+    R.add(f"{TT}:CutByType.__call__", prop="C06",
+          variants={fixed_name(m): (lambda S, m=m: setup(S, size=m)) for m in FIXED_SIZES},
+          requires=[K["wf_clause"](w, "x") for w in K["WF"]],
+          ensures=[(nm, post(nm)) for nm in POSTS],
+          options=dict(traverse_rule=Rule(J, Ql=Ql, modifies=[REM, G6], leave_kind="bool", ghost_leave=ghost_leave),
+                       hints={"post/kept-iff-of-the-type-or-parent-of-a-kept-node": induction_hint}),
+          notes=FIXED_NOTE)
 
     # ---- the nested leave callback on its own (its clauses are POSTCONDITIONS here)
     from contracts.C09 import node_obj
@@ -1211,10 +1362,10 @@ def register_order_call(R):
     TT = "swcgeom/transforms/tree.py"
     REM = local_collection_name(f"{TU}:cut_tree", "list")  # the local list of the inlined cut_tree
 
-    def setup(S):
+    def setup(S, size=None):
         from swcgeom.transforms.tree import CutByFurcationOrder
 
-        t = K["raw_tree"](S)
+        t = K["raw_tree"](S, size=size)
         G = Obj(GhostList, dict(at=SArr(z3.K(I, z3.IntVal(-1)), nof(t), "int", name="at")))  # position of a node in cut_tree's `removals`
         return dict(self=S.obj(CutByFurcationOrder, max_furcation_order=S.int("kmax")), x=t, __ghost__=dict(G6=G))
 
@@ -1348,15 +1499,17 @@ def register_order_call(R):
     POSTS = ["a-furcation-is-a-node-that-two-distinct-rows-name-as-parent", "removed-iff-the-furcation-level-reaches-the-order",
              "survivors-are-exactly-the-nodes-outside-the-closure-in-order", "survivors-keep-every-attribute",
              "ids-are-positions-and-parent-relation-kept", "result-shares-no-storage-with-the-input"]
-    R.add(f"{TT}:CutByFurcationOrder.__call__", prop="C06", setup=setup,
-          requires=[K["wf_clause"](w, "x") for w in K["WF"]],
-          ensures=[(nm, post(nm)) for nm in POSTS],
-          options=dict(traverse_rule=Rule(J, Qe=Qe, modifies=[(REM, "int"), G6], enter_kind=lambda E: (fresh("int", "plevel"), fresh("bool", "premoved")), ghost_enter=ghost_enter),
-                       count_model="rank-select",
-                       hints={"enter/invariant-preserved": count_hint, "post/a-furcation-is-a-node-that-two-distinct-rows-name-as-parent": furc_hint,
-                              "post/removed-iff-the-furcation-level-reaches-the-order": induction_hint}),
+    OC = dict(requires=[K["wf_clause"](w, "x") for w in K["WF"]],
+              ensures=[(nm, post(nm)) for nm in POSTS],
+              options=dict(traverse_rule=Rule(J, Qe=Qe, modifies=[(REM, "int"), G6], enter_kind=lambda E: (fresh("int", "plevel"), fresh("bool", "premoved")), ghost_enter=ghost_enter),
+                           count_model="rank-select",
+                           hints={"enter/invariant-preserved": count_hint, "post/a-furcation-is-a-node-that-two-distinct-rows-name-as-parent": furc_hint,
+                                  "post/removed-iff-the-furcation-level-reaches-the-order": induction_hint}))
+    R.add(f"{TT}:CutByFurcationOrder.__call__", prop="C06", setup=setup, **OC,
           notes="cut_tree and the callback _enter are interpreted from source (inlined) under the traverse rule; to_subtree through its proved contract; "
                 "level(root) = 0, level(x) = level(parent) + [x has more than one child]; removed iff level >= max_furcation_order")
+    # the same contract on trees of a fixed small number of rows
+    R.add(f"{TT}:CutByFurcationOrder.__call__", prop="C06", variants={fixed_name(m): (lambda S, m=m: setup(S, size=m)) for m in FIXED_SIZES}, **OC, notes=FIXED_NOTE)
 
 
 _reg6e = register
@@ -1533,8 +1686,8 @@ def register_neurites(R):
     nof, col, sel = K["nof"], K["col"], K["sel"]
     TREE = "swcgeom/core/tree.py"
 
-    def setup(S):
-        return dict(self=K["raw_tree"](S), type_check=S.bool("type_check"))
+    def setup(S, size=None):
+        return dict(self=K["raw_tree"](S, size=size), type_check=S.bool("type_check"))
 
     def soma_wrong(E, v, o):
         t = v["self"]
@@ -1593,14 +1746,16 @@ def register_neurites(R):
     for name, dendrites in (("get_neurites", False), ("get_dendrites", True)):
         labels = ["source-items-are-the-children-of-the-soma-each-once-in-row-order", "a-child-contributes-a-tree-iff-it-is-wanted"] + \
                  [w for w in K["GS_POSTS"] if w != "mapping-reported"] + ["result-shares-no-storage-with-the-input"]
-        R.add(f"{TREE}:Tree.{name}", prop="C06", setup=setup,
-              requires=[K["wf_clause"](w, "self") for w in K["WF"]],
-              raises={"ValueError": ("only-when-the-type-check-is-on-and-node-0-is-not-a-soma", soma_wrong)},
-              ghost_exit=probe,
-              ensures=[("a-normal-return-means-the-soma-check-passed-or-was-not-asked-for", lambda E, v, o: z3.Not(soma_wrong(E, o, o)))] + [(("every-dendrite-typed-child-and-no-other-contributes-a-tree" if dendrites else "every-child-contributes-a-tree") if w == "a-child-contributes-a-tree-iff-it-is-wanted" else w, post(w, dendrites)) for w in labels],
-              options=dict(models=ext_C06.MODELS),
+        NE = dict(requires=[K["wf_clause"](w, "self") for w in K["WF"]],
+                  raises={"ValueError": ("only-when-the-type-check-is-on-and-node-0-is-not-a-soma", soma_wrong)},
+                  ghost_exit=probe,
+                  ensures=[("a-normal-return-means-the-soma-check-passed-or-was-not-asked-for", lambda E, v, o: z3.Not(soma_wrong(E, o, o)))] + [(("every-dendrite-typed-child-and-no-other-contributes-a-tree" if dendrites else "every-child-contributes-a-tree") if w == "a-child-contributes-a-tree-iff-it-is-wanted" else w, post(w, dendrites)) for w in labels],
+                  options=dict(models=ext_C06.MODELS))
+        R.add(f"{TREE}:Tree.{name}", prop="C06", setup=setup, **NE,
               notes="the result is a generator: it is described by an arbitrary position of its source (the children of node 0 in row order): "
                     "whether that child contributes, and that its tree is the subtree rooted at it (get_subtree_impl through its proved contract)")
+        # the same contract on trees of a fixed small number of rows
+        R.add(f"{TREE}:Tree.{name}", prop="C06", variants={fixed_name(m): (lambda S, m=m: setup(S, size=m)) for m in FIXED_SIZES}, **NE, notes=FIXED_NOTE)
 
 
 _reg6g = register
@@ -1622,11 +1777,11 @@ def register_short_tip_call(R):
     TT = "swcgeom/transforms/tree.py"
     LEAVE = f"{TT}:CutShortTipBranch._leave"
 
-    def setup(with_callback):
+    def setup(with_callback, size=None):
         def f(S):
             from swcgeom.transforms.tree import CutShortTipBranch
 
-            t = K["raw_tree"](S)
+            t = K["raw_tree"](S, size=size)
             cbs = PList([S.callback("user_callback", lambda E, a, kw: None)] if with_callback else [])
             G = Obj(GhostList, dict(at=SArr(z3.K(I, z3.IntVal(-1)), nof(t), "int", name="at")))  # ghost: position of a node in `removals`
             return dict(self=S.obj(CutShortTipBranch, thre=S.real("thre"), callbacks=cbs), x=t, __ghost__=dict(G6=G))
@@ -1861,17 +2016,20 @@ def register_short_tip_call(R):
              "ids-are-positions-and-parent-relation-kept", "result-shares-no-storage-with-the-input", "callbacks-restored"]
     LABEL = {"removal-closure-is-removed-or-below-a-removed-node": "removed-iff-first-node-of-a-tip-branch-within-the-threshold-at-a-furcation-or-below-a-removed-node",
              "callbacks-restored": "the-callback-list-is-as-it-was"}
+    SC = dict(requires=[K["wf_clause"](w, "x") for w in K["WF"]],
+              ensures=[(LABEL.get(nm, nm), post(nm)) for nm in POSTS],
+              inlined_loops={LEAVE: {0: FOR_LOOP, 1: K["WALK_LOOP"]}},
+              options=dict(traverse_rule=Rule(J, Ql=Ql, modifies=[lambda E: (recorder_list(E.cur_frame), "int"), G6], leave_args_at=leave_args, leave_result=leave_result, ghost_leave=ghost_leave),
+                           models=ext_C06.MODELS,
+                           hints={"post/a-furcation-is-a-node-that-two-distinct-rows-name-as-parent": furc_hint, "loop0/preserved/earlier-entries-kept-and-one-new-entry-per-short-tip-chain-child-so-far": for_hint, "leave/invariant-preserved": leave_hint,
+                                  }))
     R.add(f"{TT}:CutShortTipBranch.__call__", prop="C06",
           variants={"no user callback": setup(False), "with a user callback": setup(True)},
-          requires=[K["wf_clause"](w, "x") for w in K["WF"]],
-          ensures=[(LABEL.get(nm, nm), post(nm)) for nm in POSTS],
-          inlined_loops={LEAVE: {0: FOR_LOOP, 1: K["WALK_LOOP"]}},
-          options=dict(traverse_rule=Rule(J, Ql=Ql, modifies=[lambda E: (recorder_list(E.cur_frame), "int"), G6], leave_args_at=leave_args, leave_result=leave_result, ghost_leave=ghost_leave),
-                       models=ext_C06.MODELS,
-                       hints={"post/a-furcation-is-a-node-that-two-distinct-rows-name-as-parent": furc_hint, "loop0/preserved/earlier-entries-kept-and-one-new-entry-per-short-tip-chain-child-so-far": for_hint, "leave/invariant-preserved": leave_hint,
-                              }),
+          **SC,
           notes="_leave is interpreted from source (inlined) under the traverse rule for ANY number of children; to_subtree through its proved contract; "
                 "tip branch = a child of a furcation below which a single chain runs to a tip; its length is measured from the furcation")
+    # the same contract on trees of a fixed small number of rows
+    R.add(f"{TT}:CutShortTipBranch.__call__", prop="C06", variants={f"{fixed_name(m)}, no user callback": setup(False, size=m) for m in FIXED_SIZES}, **SC, notes=FIXED_NOTE)
 
 
 _reg6h = register
